@@ -675,6 +675,16 @@ func c13(c *Ctx) (*report.Result, error) {
 
 	res.Explanation = "SSA of proxy.NewClusterConnection and makeServerOptions (origin and Inverse()-parity of the maps each server's translators receive), of the translator constructors and methods (which matcher serves which direction), of collect.NewStaticBiMap (backward = inverse image of forward; duplicate key or value returns an error before insertion) and the config helpers that build it (pairs yielded as (local, remote); errors returned), of interceptor.visitNamespace / visitSearchAttributes / visitDataBlobs / translate* (inventory of every store and visit.Assign that can modify a message, each guarded by the matcher's verdict), and of TranslationInterceptor.Intercept (bypass path). Decides direction, invertibility-by-construction, exact-match-only and the write frame; does not decide value-level identity of untouched fields."
 	res.Assumptions = []string{"visit.Assign stores exactly the given value at the visited position", "map lookup is exact string equality"}
+	res.RuleDoc["O13.6"] = "every name is mapped exactly once: after visitNamespace's callback walked a History's events itself it returns Skip, so the library does not walk them again (same analysis as O12.4) - mapping twice breaks invertibility for chained or swapped one-to-one mappings"
+	if f := resolve(c, res, "O13.6", anchor{"interceptor", "", "visitNamespace"}); f != nil {
+		if cb := visitCallback(f); cb != nil {
+			checkNoDoubleWalk(c, res, "O13.6", f, cb)
+		} else {
+			res.Undec("O13.6", "visitNamespace: visit callback", fnPos(c.Prog, f), "not found")
+		}
+	}
+	res.RuleDoc["O13.7"] = "translation, access control and repair keep no memory between messages: no shipped function of the interceptor, proto/compat, auth and collect packages stores into package-level state, receiver fields or sync.Maps after construction - a cache keyed by message type or content makes the treatment of one message depend on the ones before it"
+	checkStateless(c, res, "O13.7", []string{"interceptor", "proto/compat", "auth", "collect"}, map[string]string{})
 	return res, nil
 }
 
